@@ -62,6 +62,13 @@ pub fn run_on(index: usize, job: Job, fresh: bool) -> Handle {
     if fresh && FRESH.load(std::sync::atomic::Ordering::Relaxed) {
         return run_static_opt(job, true);
     }
+    if POISONED.load(std::sync::atomic::Ordering::Relaxed) {
+        // an abandoned run left pooled threads stuck inside the library: forget the pool
+        let mut g = BY_INDEX.lock().unwrap();
+        g.clear();
+        drop(g);
+        POISONED.store(false, std::sync::atomic::Ordering::Relaxed);
+    }
     let done = Arc::new(Done { m: Mutex::new(false), cv: Condvar::new() });
     let tx = {
         let mut g = BY_INDEX.lock().unwrap();
@@ -78,6 +85,9 @@ pub fn run_scoped_on<'a>(index: usize, job: Box<dyn FnOnce() + Send + 'a>) -> Ha
     let job: Job = unsafe { std::mem::transmute::<Box<dyn FnOnce() + Send + 'a>, Job>(job) };
     run_on(index, job, false)
 }
+
+/// set when a run was abandoned with tasks still stuck on pooled threads
+pub static POISONED: std::sync::atomic::AtomicBool = std::sync::atomic::AtomicBool::new(false);
 
 /// set per plan (cfg.fresh_threads): do not reuse threads
 pub static FRESH: std::sync::atomic::AtomicBool = std::sync::atomic::AtomicBool::new(false);
